@@ -74,13 +74,13 @@ def policy_spec(draw, name, tight=False, batching=None):
         return {
             "name": name, "goal": "max_goodput", "enforce_deadlines": draw(st.booleans()), "retract_schedules": draw(st.booleans()),
             "release_taskgraphs": draw(st.booleans()), "lookahead": draw(st.sampled_from([0, 0, 5, 30])),
-            "time_discretization": draw(st.sampled_from([1, 1, 2, 3])), "plan_ahead": draw(st.sampled_from([-1, 12, 20])),
+            "time_discretization": draw(st.sampled_from([1, 1, 2, 3])), "plan_ahead": draw(st.sampled_from([-1, 12, 20, 4, 6])),  # short windows: the last slot is contended
         }
     if name == "TetriSched_CPLEX":
         return {
             "name": name, "goal": "max_goodput", "enforce_deadlines": draw(st.booleans()), "retract_schedules": draw(st.booleans()),
             "lookahead": draw(st.sampled_from([0, 0, 5])), "time_discretization": draw(st.sampled_from([1, 1, 2, 3])),
-            "plan_ahead": draw(st.sampled_from([-1, 12, 20])), "batching": draw(st.sampled_from([False, False, False, True])) if batching is None else batching,
+            "plan_ahead": draw(st.sampled_from([-1, 12, 20, 4, 6])), "batching": draw(st.sampled_from([False, False, False, True])) if batching is None else batching,
         }
     if name == "Z3":
         return {"name": name, "goal": "max_slack", "enforce_deadlines": draw(st.booleans()), "retract_schedules": draw(st.booleans()),
